@@ -564,11 +564,13 @@ class CellCase(Sub):
         ev = []
 
         def oncell(cell, setter):
-            ev.append(['cell', cell.label, cell.row.index, cell.col.index, cell.row.is_absolute, cell.col.is_absolute])
+            ev.append(['cell', cell.label, cell.row.index, cell.col.index, cell.row.is_absolute, cell.col.is_absolute,
+                       cell.row.label, cell.col.label])
             setter(42)
 
         def onrange(s, e, setter):
-            ev.append(['range', s.label, s.row.index, s.col.index, e.label, e.row.index, e.col.index])
+            ev.append(['range', s.label, s.row.index, s.col.index, e.label, e.row.index, e.col.index,
+                       s.row.label, s.col.label, e.row.label, e.col.label])
             setter([[1, 2], [3, 4]])
         p.on('callCellValue', oncell)
         p.on('callRangeValue', onrange)
